@@ -1510,6 +1510,16 @@ class Interp:
             return self._sub2_load(v, idx, node)
         if isinstance(idx, slice):
             return self._slice_load(v, idx)
+        if isinstance(idx, np.ndarray) and idx.dtype == bool and idx.ndim == 1 and is_arr(v):
+            # concrete mask: the selected cells, in order
+            n = concrete_int(self.arr_len(v))
+            if n != len(idx):
+                raise Unsupported("boolean-mask load with a mask of a different length")
+            if isinstance(v, np.ndarray):
+                return v[idx]
+            rd = self.arr_reader(v)
+            sel = [rd(i) for i in range(n) if idx[i]]
+            return LArr(len(sel), self._list_reader(sel))
         if is_arr(idx) and self.arr_dtype(idx) == "bool":
             raise Unsupported("boolean-mask load")
         if isinstance(idx, list) and len(idx) == 1 and is_arr(v):
